@@ -33,11 +33,16 @@ def expected_txns(out, layout, source):
 def observe(path, layout, sign, dec, delimiter, header, source):
     from tally.format_parser import parse_format_string
     from tally.parsers import parse_generic_csv
-    spec = parse_format_string(RC.format_string(layout, sign), RC.LAYOUTS[layout]['template'])
-    # what config_loader.resolve_source_format applies from the source's settings
+    # the source as settings.yaml describes it, resolved by the real config_loader.resolve_source_format (a tab-separated
+    # source has two spellings there: the keyword tab and the tab character itself)
+    from tally.config_loader import resolve_source_format
+    src = {'name': source, 'file': path, 'format': RC.format_string(layout, sign), 'has_header': header}
+    if RC.LAYOUTS[layout]['template']:
+        src['columns'] = {'description': RC.LAYOUTS[layout]['template']}
     if delimiter != ',':
-        spec.delimiter = RC.regex_for(layout) if delimiter == 'regex' else delimiter
-    spec.has_header = header
+        src['delimiter'] = RC.regex_for(layout) if delimiter == 'regex' else \
+            ('\t' if delimiter == 'tab' and (len(layout) + len(sign) + int(header)) % 2 else delimiter)
+    spec = resolve_source_format(src)['_format_spec']
     txns = parse_generic_csv(path, spec, [], source_name=source, decimal_separator='.' if dec == 'dot' else ',')
     out = []
     for t in txns:
